@@ -139,6 +139,31 @@ func checkC14(ctx *Ctx, c *Case) error {
 			return fmt.Errorf("DiscardUnknown result differs (unknown must vanish at every depth, nothing else may change): %s", diffStr(got, wantDiscard))
 		}
 	}
+	// options combined on one call: the stream is decoded a second time INTO the
+	// message that already holds it (unknown fields included), with Merge +
+	// DiscardUnknown (+ a recursion limit that is sufficient): what the message
+	// held stays, unknown fields included; of the new input only known fields
+	// arrive. Oracle: the same two calls on dynamicpb.
+	{
+		comb := proto.UnmarshalOptions{Merge: true, DiscardUnknown: true, AllowPartial: true}
+		if digest(c.Bytes, "limit")%2 == 0 {
+			comb.RecursionLimit = 200
+		}
+		dm := t.NewD()
+		pm2 := t.New()
+		if proto.Unmarshal(b, dm) == nil && comb.Unmarshal(b, dm) == nil {
+			if err := proto.Unmarshal(b, pm2); err != nil {
+				return fmt.Errorf("Unmarshal rejected a well-typed stream: %v", err)
+			}
+			if err := comb.Unmarshal(b, pm2); err != nil {
+				return fmt.Errorf("Unmarshal with Merge+DiscardUnknown into a populated message rejected a well-typed stream: %v", err)
+			}
+			if got, wantM := canonI(pm2), canonD(dm.ProtoReflect()); got != wantM {
+				return fmt.Errorf("Merge+DiscardUnknown(+RecursionLimit=%d) into a message that holds unknown fields differs from the reference: %s", comb.RecursionLimit, diffStr(got, wantM))
+			}
+			ctx.Label("merge+discard combination compared")
+		}
+	}
 	// replace-then-restore on the decoded message: the slice GetUnknown handed
 	// out must survive a SetUnknown of something else, and storing it back
 	// restores the set exactly
